@@ -57,6 +57,25 @@ def second_product(tier):
     return _mk(levels, {'tf': 20.0, 'constraints': {'dtScale': 0.05}, 'max_steps': 8000})
 
 
+def units_product(tier):
+    """how the cell volumes are specified (molar / cell volume / lattice parameter, different atoms per cell for matrix and
+    precipitate) x the two small-radius thresholds (constraints.minRadius, precipitate Rmin) made different from each other"""
+    quick = tier == 'quick'
+    levels = {
+        'system': ['bin', 'tern'],
+        'apc': [[4, 4], [4, 16]] if quick else [[4, 4], [4, 16], [2, 4]],
+        'voltype': ['VM', 'a'] if quick else ['VM', 'VA', 'a'],
+        'radii': [[None, None], [6e-10, None], [None, 6e-10]],     # (minRadius, Rmin)
+        'it': ['euler'] if quick else ['euler', 'rk4'],
+        'temp': ['iso', 'hrh'] if quick else ['iso', 'hrh', 'heat'],
+    }
+    out = []
+    for c in _mk(levels, {'tf': 20.0, 'constraints': {'dtScale': 0.05}, 'max_steps': 8000, 'vm': 1.3}):
+        c['minRadius'], c['Rmin'] = c.pop('radii')
+        out.append(c)
+    return out
+
+
 def shape_product(tier):
     quick = tier == 'quick'
     levels = {
